@@ -40,6 +40,7 @@ type swarmScenario struct {
 	refSide  string
 	refHook  string
 	refN     int
+	refKill  bool // instead of refusing that call: close the node's connections while it is in progress
 	nStreams int
 	actions  []swarmAction
 	closeAt  [2]int // ms; when each swarm is closed
@@ -64,6 +65,12 @@ func drawSwarmScenario(rt *rapid.T) *swarmScenario {
 		sc.refSide = rapid.SampledFrom([]string{"client", "server"}).Draw(rt, "refSide")
 		sc.refHook = rapid.SampledFrom([]string{"OpenConnection", "SetPeer", "BeginSpan", "ReserveMemory", "OpenStream", "SetProtocol", "SetService"}).Draw(rt, "refHook")
 		sc.refN = rapid.IntRange(0, 3).Draw(rt, "refN")
+		sc.refKill = rapid.IntRange(0, 1).Draw(rt, "refKill") == 0
+		if sc.refKill {
+			// not from inside the muxer's own receive loop (ReserveMemory / BeginSpan of an incoming
+			// stream): closing the session there would wait for the very goroutine that is calling
+			sc.refHook = rapid.SampledFrom([]string{"OpenStream", "OpenStream", "SetProtocol", "SetService", "SetPeer", "OpenConnection"}).Draw(rt, "killHook")
+		}
 	}
 	sc.nStreams = rapid.IntRange(0, 4).Draw(rt, "nStreams")
 	na := rapid.IntRange(0, 4).Draw(rt, "nactions")
@@ -92,15 +99,15 @@ func (sc *swarmScenario) String() string {
 	for _, a := range sc.actions {
 		as = append(as, fmt.Sprintf("%s@%d", a.kind, a.at))
 	}
-	return fmt.Sprintf("%s io=%s/op%d/%s ref=%s/%s#%d streams=%d actions=[%s] close=%v upgradedGater(delay=%v reject=%v)", sc.cfg, sc.ioSide, sc.ioK, sc.ioKind, sc.refSide, sc.refHook, sc.refN, sc.nStreams,
+	return fmt.Sprintf("%s io=%s/op%d/%s ref=%s/%s#%d(kill=%v) streams=%d actions=[%s] close=%v upgradedGater(delay=%v reject=%v)", sc.cfg, sc.ioSide, sc.ioK, sc.ioKind, sc.refSide, sc.refHook, sc.refN, sc.refKill, sc.nStreams,
 		strings.Join(as, " "), sc.closeAt, sc.upgDelay, sc.upgReject)
 }
 
 func TestSwarmPair(t *testing.T) {
 	name := t.Name()
-	hx.Check(t, 1500, 500000, 0, func(rt *rapid.T) {
+	hx.Check(t, 10000, 800000, 0, func(rt *rapid.T) {
 		sc := drawSwarmScenario(rt)
-		var fired, established bool
+		var fired, established, killFired bool
 		hx.Bubble(t, rt, func() {
 			nw := memtpt.NewNetwork()
 			nw.Latency = time.Millisecond
@@ -161,6 +168,17 @@ func TestSwarmPair(t *testing.T) {
 					rt.Fatalf("transport: %v", err)
 				}
 				sws[i] = sw
+			}
+			if sc.refKill {
+				for i, r := range []*refusal{refC, refS} {
+					if r != nil {
+						r.act = func() {
+							for _, c := range sws[i].Conns() {
+								c.Close()
+							}
+						}
+					}
+				}
 			}
 			if err := sws[1].Listen(laddr); err != nil {
 				rt.Fatalf("listen: %v", err)
@@ -303,6 +321,7 @@ func TestSwarmPair(t *testing.T) {
 			for _, r := range []*refusal{refC, refS} {
 				if r != nil && r.fired.Load() {
 					fired = true
+					killFired = killFired || r.act != nil
 				}
 			}
 			for i, n := range []*node{client, server} {
@@ -335,6 +354,9 @@ func TestSwarmPair(t *testing.T) {
 		}
 		if established {
 			labels = append(labels, "established")
+		}
+		if killFired {
+			labels = append(labels, "connections-closed-during-rcmgr-call:"+sc.refSide+"/"+sc.refHook)
 		}
 		var kinds []string
 		for _, a := range sc.actions {
